@@ -123,6 +123,41 @@ def stageInput (p : Port) (v : Val) (use4state : Bool) : Option Port :=
   if use4state then setInputMasked p (valueToWords v n) (valueToMaskWords v n)
   else setInput p (valueToWords v n)
 
+/-! ### the scalar / word accessors of `SimCtx` (`crates/component/src/ctx.rs`), native direct-pointer path -/
+
+/-- `SimCtx::read_u64(port)`: `*port.words_ptr` — the first staged word, X/Z dropped. -/
+def readU64 (p : Port) : Nat := p.words.headD 0
+
+/-- `SimCtx::read_words(port, out)`: `copy_nonoverlapping(port.words_ptr, out, words_for(width))`. -/
+def readWords (p : Port) : List Nat := p.words.take (wordsFor p.width)
+
+/-- `SimCtx::write_u64(port, value)`:
+`word = if width >= 64 { value } else { value & (u64::MAX >> (64 - width)) }` (the shift panics in a
+debug build when `width == 0`); `*words_ptr = word; *mask_ptr = 0; *dirty_ptr = 1` — only the first
+word and the first mask word are touched. -/
+def writeU64 (p : Port) (value : Nat) : Option Port :=
+  if p.width = 0 then none else
+  let word := if p.width ≥ 64 then value else value &&& ((two64 - 1) >>> (64 - p.width))
+  match p.words, p.mask with
+  | _ :: ws, _ :: ms => some { p with words := word :: ws, mask := 0 :: ms, dirty := true }
+  | _, _ => none
+
+/-- The buffer `write_words` leaves in the port: the first `n = words_for(width)` words with
+`words[n-1] &= top_mask`, where `top_bits = width - 64*(n-1)` and
+`top_mask = if top_bits >= 64 { u64::MAX } else { (1 << top_bits) - 1 }`. -/
+def writeWordsBuf (ws : List Nat) (width : Nat) : List Nat :=
+  let n := wordsFor width
+  let topBits := width - 64 * (n - 1)
+  let topMask := if topBits ≥ 64 then two64 - 1 else (1 <<< topBits) - 1
+  modifyLast (fun last => last &&& topMask) (ws.take n)
+
+/-- `SimCtx::write_words(port, words)` (needs `words.len() >= n`): buffer as above,
+`write_bytes(mask_ptr, 0, n)`, dirty. -/
+def writeWords (p : Port) (ws : List Nat) : Option Port :=
+  let n := wordsFor p.width
+  if ws.length < n ∨ p.words.length ≠ n ∨ p.mask.length ≠ n then none
+  else some { p with words := writeWordsBuf ws p.width, mask := List.replicate n 0, dirty := true }
+
 /-! ### wasm transport: little-endian bytes through linear memory -/
 
 /-- `u64::to_le_bytes`. -/
